@@ -314,3 +314,42 @@ def combine(parent: Optional[str], child: str) -> str:
     if parent == "IS_OPTIONAL":
         return "IS_OPTIONAL" if child == "IS_REQUIRED" else child
     return "raise:ValueError"
+
+
+# ------------------------------------------------------------------------------------------------ AHB expression level
+def ref_part(cond, rc: Dict[str, str], fc: Dict[str, bool]):
+    """Reference evaluation of one part's condition AST: dict or raises RefInvalid."""
+    if not valid(cond):
+        raise RefInvalid(unparse(cond))
+    st = state(cond, rc)
+    fulfilled, conditional = outcome(st)
+    reading = fc_reading(cond, rc, fc)
+    return {"fulfilled": fulfilled, "conditional": conditional, "fc_fulfilled": True if reading is None else reading,
+            "hint_keys": [k for k in keys_of(cond) if key_kind(k) == "hint"]}
+
+
+def ref_evaluate_ahb(text: str, rc: Dict[str, str], fc: Dict[str, bool]):
+    """Reference evaluation of an AHB expression: first fulfilled part, else last. All parts are evaluated first."""
+    parts = parse_ahb_tokens(text)
+    results = []
+    for kind, written, cond in parts:
+        ind = ("ModalMark", MODAL[written.upper()]) if kind == "mm" else ("PrefixOperator", written.upper())
+        if cond is None:
+            results.append({"indicator": ind, "fulfilled": True, "conditional": False, "fc_fulfilled": True, "hint_keys": []})
+        else:
+            r = ref_part(cond, rc, fc)
+            r["indicator"] = ind
+            results.append(r)
+    for r in results:
+        if r["fulfilled"]:
+            if len(results) > 1:
+                r["conditional"] = True
+            return r
+    return results[-1]
+
+
+def validation_status(outcome_, indicator: str, parent: Optional[str], soll_is_required: bool) -> str:
+    own = map_status(outcome_, indicator, soll_is_required)
+    if own.startswith("raise:"):
+        return own
+    return combine(parent, own)
